@@ -151,6 +151,72 @@ theorem qm_nonparam_mono (d : Detrending) (obs H F : List Rat) (ho : 2 ≤ obs.l
 example : ∃ T : Rat → Rat, MonoR T ∧ qmNonparam .no_detrending [1, 2, 4] [0, 2, 3] [5, -7, 2, 2] = [5, -7, 2, 2].map T :=
   qm_nonparam_mono _ _ _ _ (by decide) (by decide) (fun h => by cases h)
 
+/-! ## 3b. QuantileMapping with multiplicative detrending on SIGNED data (`δ = mean F / mean H < 0`)
+
+  `δ > 0` in §2 / §3 is sufficient, not necessary: `apply_on_window` computes `qm(F / δ) · δ` with the SAME signed `δ` on
+  both sides, so for `δ < 0` the division reverses the order, the non-decreasing inner mapping keeps the reversed order
+  and the multiplication reverses it back.  The only guard left is `δ ≠ 0` (part of `qmGuard`: the code divides by
+  `mean H` and by `δ`).  Scaling back with `|δ|` instead of `δ` would make the whole transfer function order *reversing*
+  (`abs_rescaling_reverses`). -/
+
+/-- the detrending wrapper keeps monotonicity for every non-zero scaling factor, negative ones included -/
+theorem qmWrap_mono_signed (d : Detrending) (H F : List Rat) (g : Rat → Rat) (hg : MonoR g)
+    (hδ : d = .multiplicative → mean F / mean H ≠ 0) : MonoR (qmWrap d H F g) := by
+  cases d with
+  | additive => exact qmWrap_mono .additive H F g hg (fun h => by cases h)
+  | no_detrending => exact qmWrap_mono .no_detrending H F g hg (fun h => by cases h)
+  | multiplicative =>
+    rcases lt_or_gt_of_ne (hδ rfl) with hneg | hpos
+    · intro a b hab
+      simp only [qmWrap]
+      have h1 : b / (mean F / mean H) ≤ a / (mean F / mean H) :=
+        div_le_div_of_nonpos_of_le (le_of_lt hneg) hab
+      exact mul_le_mul_of_nonpos_right (hg _ _ h1) (le_of_lt hneg)
+    · exact qmWrap_mono .multiplicative H F g hg (fun _ => hpos)
+
+/-- parametric QuantileMapping, any family: all three detrendings, **either sign** of `mean F / mean H` -/
+theorem qm_param_mono_family_signed {P} (Fam : Family P) (t : Rat) (ht : t ≤ 1 / 2) (d : Detrending) (obs H F : List Rat)
+    (_hg : qmGuard d obs H F)
+    (hc : MonoR (Fam.cdf (Fam.fit H)))
+    (hp : ∀ p q : Rat, t ≤ p → p ≤ q → q ≤ 1 - t → Fam.ppf (Fam.fit obs) p ≤ Fam.ppf (Fam.fit obs) q)
+    (hδ : d = .multiplicative → mean F / mean H ≠ 0) :
+    ∃ T : Rat → Rat, MonoR T ∧ qmParam Fam t d obs H F = F.map T :=
+  ⟨qmWrap d H F (qmParam1 Fam t obs H),
+   qmWrap_mono_signed d H F _ (qmParam1_mono Fam t ht obs H hc hp) hδ,
+   quantileMapping_eq_map (standardQMParam Fam t) (qmParam1 Fam t obs H) obs H
+     (fun x => standardQMParam_eq_map Fam t x obs H) d F⟩
+
+/-- location–scale families with `LocScaleLaws` (`scipy.stats.norm` on temperatures in °C …), either sign of `δ` -/
+theorem qm_param_mono_signed (Fam : LocScaleFam) (L : LocScaleLaws Fam) (t : Rat) (ht0 : 0 < t) (ht : t ≤ 1 / 2)
+    (d : Detrending) (obs H F : List Rat) (hg : qmGuard d obs H F) (hso : 0 < Fam.scale obs) (hsh : 0 < Fam.scale H)
+    (hδ : d = .multiplicative → mean F / mean H ≠ 0) :
+    ∃ T : Rat → Rat, MonoR T ∧ qmParam Fam.toFamily t d obs H F = F.map T :=
+  qm_param_mono_family_signed Fam.toFamily t ht d obs H F hg
+    (locScale_cdf_monoR L (Fam.fit H) hsh)
+    (fun p q h0 hpq h1 => locScale_ppf_mono L (Fam.fit obs) hso t ht0 p q h0 hpq h1) hδ
+
+/-- non-parametric QuantileMapping, all three detrendings, either sign of `δ` -/
+theorem qm_nonparam_mono_signed (d : Detrending) (obs H F : List Rat) (ho : 2 ≤ obs.length) (hh : 2 ≤ H.length)
+    (hδ : d = .multiplicative → mean F / mean H ≠ 0) :
+    ∃ T : Rat → Rat, MonoR T ∧ qmNonparam d obs H F = F.map T :=
+  ⟨qmWrap d H F (qmapExtrap1 .step .inverted_cdf H obs),
+   qmWrap_mono_signed d H F _ (fun _ _ h => Props.C16.qmapExtrap_mono .step .inverted_cdf H obs hh ho h) hδ,
+   quantileMapping_eq_map standardQMNonparam (qmapExtrap1 .step .inverted_cdf H obs) obs H
+     (fun x => Props.C16.qmapExtrap_eq_map .step .inverted_cdf H obs x) d F⟩
+
+-- satisfiable with a NEGATIVE factor: mean H = -1, mean F = 2 (δ = -2), executed
+example : mean [3, 1] / mean [-2, 0] < 0 ∧
+    OrderPres [3, 1] (qmNonparam .multiplicative [1, 2, 4] [-2, 0] [3, 1]) :=
+  ⟨by decide +kernel,
+   image_orderPres _ _ (qm_nonparam_mono_signed .multiplicative [1, 2, 4] [-2, 0] [3, 1] (by decide) (by decide)
+     (fun _ => by decide +kernel))⟩
+
+/-- why the factor must keep its sign on the way back: with `|δ|` in place of `δ` after the mapping, the transfer
+    function of a negative `δ` is order **reversing** even for the identity inner mapping (concrete witness, `δ = -2`) -/
+theorem abs_rescaling_reverses :
+    let δ : Rat := -2
+    ([1, 2] : List Rat).map (fun x => (x / δ) * Py.absQ δ) = [-1, -2] := by decide +kernel
+
 /-! ## 4. CDFt -/
 
 /-- `_apply_CDFt_mapping` is the image of `cm_future` under the composition of four monotone maps (after the shift),
